@@ -241,6 +241,8 @@ class AtomTable:
             return f"class:{obj.__module__}.{obj.__qualname__}"
         if obj is Ellipsis:
             return "Ellipsis"
+        if isinstance(obj, str):
+            return "str:" + obj
         return f"obj:{type(obj).__module__}.{type(obj).__qualname__}:{obj!r}"
 
     def code(self, obj):
